@@ -173,6 +173,10 @@ def check_file(mido, tpb, specs, acc, long=None):
                           f'({t})', case)
             return
     want_len = float(sched[-1][1]) if sched else 0.0
+    if not isinstance(length, (int, float)) or isinstance(length, bool):
+        acc.violation('length/not-a-number',
+                      f'{case}: length is {length!r}', case)
+        return
     if not close(length, want_len) or not close(length, cum):
         acc.violation('length',
                       f'{case}: length {length!r}, last cumulative time '
